@@ -355,11 +355,20 @@ impl Database {
         crate::verif_hooks::sched_point(401);
 
         if self.shared.group_commit_queue.is_enabled() {
-            match self.shared.group_commit_queue.submit_and_wait(payload) {
-                Ok(_batch_id) => {
+            match self.shared.group_commit_queue.submit_and_wait_role(payload) {
+                Ok((_batch_id, is_leader)) => {
                     #[cfg(kahflane_turdb_verif)]
                     crate::verif_hooks::sched_point(402);
-                    if let Some(pending_commits) = self.shared.group_commit_queue.take_pending() {
+                    // Only the elected leader flushes. A committer whose commit was completed by
+                    // another leader must not drain the queue: it could take the commit of a
+                    // freshly elected leader, which would then find the queue empty and report
+                    // success before its pages reach the WAL.
+                    let batch = if is_leader {
+                        self.shared.group_commit_queue.take_pending()
+                    } else {
+                        None
+                    };
+                    if let Some(pending_commits) = batch {
                         let result = self.execute_group_wal_flush(&pending_commits);
                         #[cfg(kahflane_turdb_verif)]
                         crate::verif_hooks::sched_point(403);
